@@ -305,6 +305,7 @@ func workerMain(prop *Property, build, verif, tier string, seed int64, worker, w
 	stats := NewStats()
 	known := loadKnown(verif)
 	sim := &Sim{BuildDir: build, Timeout: prop.Timeout, Stats: stats}
+	defer cleanupAll()
 	start := time.Now()
 	checks := prop.QuickChecks
 	capWall := 150 * time.Second
@@ -665,6 +666,7 @@ func replayMain(build, verif, path string, quiet bool) int {
 	}
 	stats := NewStats()
 	sim := &Sim{BuildDir: build, Timeout: prop.Timeout, Stats: stats}
+	defer cleanupAll()
 	var viol []Violation
 	func() {
 		defer func() {
